@@ -127,11 +127,13 @@ def gen_world(rng: Rng) -> dict:
             p = "proj/" + "/".join(parts[:i])
             if p not in dirs:
                 dirs.append(p)
-    # user level
+    # user level; sometimes HOME lives INSIDE the working directory (CI jobs with
+    # HOME in the workspace): precedence must not change
+    home = "proj/.home" if rng.chance(0.2) else "home/u"
     if rng.chance(0.4):
-        sources["home/u/.config/sqlfluff/.sqlfluff"] = rand_kv(rng)
+        sources[home + "/.config/sqlfluff/.sqlfluff"] = rand_kv(rng)
     if rng.chance(0.4):
-        sources["home/u/" + rng.choice([".sqlfluff", "setup.cfg"])] = rand_kv(rng)
+        sources[home + "/" + rng.choice([".sqlfluff", "setup.cfg"])] = rand_kv(rng)
     # project: root always sets a dialect
     root_kv = rand_kv(rng, 1, 3)
     root_kv["core:dialect"] = rng.choice(VALUES["core:dialect"])
@@ -163,6 +165,8 @@ def gen_world(rng: Rng) -> dict:
             if rng.chance(0.35):
                 inline = rand_kv(rng, 1, 2, INLINE_KEYS)
             lines = []
+            if inline and rng.chance(0.5):
+                lines.append("-- a leading comment, the directives follow")
             for k, v in inline.items():
                 parts = k.split(":")
                 if parts[0] == "core":
@@ -171,13 +175,14 @@ def gen_world(rng: Rng) -> dict:
             body = "\n".join(lines + ["SELECT a  FROM tbl", ""])
             files[name] = {"b64": b64(body.encode()), "mode": 0o644}
             sqls[name] = {"inline": inline, "dir": d}
-    all_dirs = set(["home/u", "proj"] + dirs)
+    all_dirs = set(["home/u", home, "proj"] + dirs)
     for p in files:
         all_dirs.add(os.path.dirname(p))
     return {
         "files": files,
         "dirs": sorted(all_dirs),
         "cwd": "proj",
+        "home": home,
         "sources": sources,
         "extra": extra,
         "overrides": overrides,
@@ -198,12 +203,13 @@ def model(world: dict, fdir: str, inline: dict) -> tuple[dict, dict]:
     """-> (values, nsources) for a file in directory fdir with the given inline set."""
     layers: list[dict] = []
     src = world["sources"]
+    home = world.get("home", "home/u")
     for fn in FILE_ORDER:
-        p = "home/u/.config/sqlfluff/" + fn
+        p = home + "/.config/sqlfluff/" + fn
         if p in src:
             layers.append(src[p])
     for fn in FILE_ORDER:
-        p = "home/u/" + fn
+        p = home + "/" + fn
         if p in src:
             layers.append(src[p])
     chain = []
@@ -286,9 +292,12 @@ def run_one(ctx: Any, seed: int, tier: str, replay: Optional[dict] = None) -> di
     gen = 0
     events: list = []
 
+    home_abs = os.path.join(root, world.get("home", "home/u"))
+    node_env = {"HOME": home_abs, "XDG_CONFIG_HOME": os.path.join(home_abs, ".config")}
+
     def new_node(name: str):
-        return z.node({"name": name, "root": root, "cwd": cwd, "seed": seed + gen,
-                       "knobs": {"cfg_probe": True, "journal_reads": False, "lookahead": 2}}, sink=events)
+        return z.node({"name": name, "root": root, "cwd": cwd, "seed": seed + gen, "env": node_env,
+                       "knobs": {"cfg_probe": True, "journal_reads": False, "lookahead": 2, "worker_env": node_env}}, sink=events)
 
     node = None
     prefix: list = []
